@@ -103,6 +103,10 @@ static void sbbf(int scale) {
         for (int i = 0; i < nvals; i++) {
             size_t len = type == 0 ? 4 : type == 1 ? 8 : type == 2 ? 4 : type == 3 ? 8 : vrng_below(&R, 70); vals[i] = v_exact(len); vl[i] = len; vrng_bytes(&R, vals[i], len);
             if (vrng_chance(&R, 1, 10) && len) memset(vals[i], vrng_chance(&R, 1, 2) ? 0 : 0xFF, len);
+            if ((type == 2 || type == 3) && vrng_chance(&R, 1, 5)) { /* special IEEE values: -0.0, +0.0, NaNs with payloads, infinities, denormals - the filter hashes the PLAIN bytes, never a normalised value */
+                static const uint64_t SP64[] = {0x8000000000000000ULL, 0, 0x7FF8000000000000ULL, 0xFFF8000000000001ULL, 0x7FF0000000000001ULL, 0x7FF0000000000000ULL, 0xFFF0000000000000ULL, 1, 0x800FFFFFFFFFFFFFULL, 0x3FF0000000000000ULL};
+                static const uint32_t SP32[] = {0x80000000u, 0, 0x7FC00000u, 0xFFC00001u, 0x7F800001u, 0x7F800000u, 0xFF800000u, 1, 0x807FFFFFu, 0x3F800000u};
+                int q = (int)vrng_below(&R, 10); if (type == 3) memcpy(vals[i], &SP64[q], 8); else memcpy(vals[i], &SP32[q], 4); v_count("special_ieee_values"); }
             hs[i] = XXH64(vals[i], len, 0);                                   /* hash of the PLAIN encoding, seed 0 */
             ref_sbbf_insert(ref, nb, hs[i]);
             switch (type) { case 0: { int32_t x; memcpy(&x, vals[i], 4); carquet_bloom_filter_insert_i32(f, x); break; } case 1: { int64_t x; memcpy(&x, vals[i], 8); carquet_bloom_filter_insert_i64(f, x); break; }
